@@ -453,6 +453,88 @@ def work_runloop(unit):
     return fails, n, 0
 
 
+# ------------------------------------------------------------------------------------------
+# sequence sets: every string over a small alphabet, decided by an independent recogniser
+SET_ALPHABET = ["1", "7", "2", ":", "*", ","]
+SET_POSITIONS = [
+    ("a FETCH %s FLAGS", "fetch", False), ("a UID FETCH %s FLAGS", "fetch", True), ("a STORE %s +FLAGS (x)", "store", False),
+    ("a COPY %s m", "copy", False), ("a UID MOVE %s m", "move", True), ("a UID EXPUNGE %s", "expunge", True),
+    ("a SEARCH %s", "search", False), ("a SEARCH UID %s", "search-uid", False), ("a SEARCH NOT %s", "search-not", False),
+]
+
+
+def recognise_set(s: str):
+    """RFC 3501 sequence-set -> list of elements (int | '*' | (a, b)), or None if `s` is not one.
+    seq-number = nz-number / "*";  seq-range = seq-number ":" seq-number;  set = elem *("," elem)."""
+    out = []
+    for part in s.split(","):
+        halves = part.split(":")
+        if not 1 <= len(halves) <= 2:
+            return None
+        vals = []
+        for h in halves:
+            if h == "*":
+                vals.append("*")
+            elif h.isdigit() and h.isascii() and h[0] != "0":
+                vals.append(int(h))
+            else:
+                return None
+        out.append(vals[0] if len(vals) == 1 else (vals[0], vals[1]))
+    return out
+
+
+def set_strings(maxlen: int):
+    for n in range(1, maxlen + 1):
+        for tup in itertools.product(SET_ALPHABET, repeat=n):
+            yield "".join(tup)
+
+
+def work_sets(unit):
+    fails = []
+    n = 0
+    kinds = set()
+    for s in unit:
+        want = recognise_set(s)
+        for tmpl, what, uid in SET_POSITIONS:
+            n += 1
+            sentence = tmpl % s
+            st, cmd, err = parse_one(sentence)
+            kinds.add((what, want is not None, st))
+            rp = {"driver": "c08-set", "sentence": sentence, "set": s}
+            if st == "crash":
+                fails.append(Failure(PROP, "C08.parser-crash", {"exc": type(err).__name__, "command": what}, rp, "BadCommand or a parse", repr(err)[:200]))
+            elif want is None and st == "ok":
+                fails.append(Failure(PROP, "C08.ill-formed-accepted", {"class": "sequence-set", "command": what}, rp, "BadCommand",
+                                     f"parsed, left over {cmd.input[:20]!r}"))
+            elif want is not None and st != "ok":
+                fails.append(Failure(PROP, "C08.valid-sentence-rejected", {"command": what, "exc": type(err).__name__, "hint": "sequence-set"}, rp,
+                                     "accepted", repr(err)[:200]))
+            elif want is not None:
+                if what.startswith("search"):
+                    got = canon_search(cmd.search_key)
+                    flat = json_find_set(got)
+                    if flat is None or _ns(flat) != _ns(want):
+                        fails.append(Failure(PROP, "C08.meaning", {"command": what, "field": "search-set", "hint": "sequence-set"}, rp, _j(want), _j(got)))
+                elif _ns(list(cmd.msg_set or [])) != _ns(want):
+                    fails.append(Failure(PROP, "C08.meaning", {"command": what, "field": "msg_set", "hint": "sequence-set"}, rp, _j(want), _j(list(cmd.msg_set or []))))
+    return fails, n, kinds
+
+
+def json_find_set(x):
+    """The message-set operand inside a canonical search key (first list of ints/'*'/pairs found)."""
+    def is_set(v):
+        return isinstance(v, (list, tuple)) and v and all(isinstance(e, int) or e == "*" or (isinstance(e, (list, tuple)) and len(e) == 2 and
+                                                                                               all(isinstance(q, int) or q == "*" for q in e)) for e in v)
+    if is_set(x):
+        return x
+    if isinstance(x, (list, tuple)):
+        for e in x:
+            r = json_find_set(e)
+            if r is not None:
+                return r
+    return None
+
+
 def core_sentences(tier):
     import hashlib
 
@@ -504,9 +586,19 @@ def run(tier, seed, jobs) -> Result:
     for f, n, _ in pmap(work_runloop, runits, jobs):
         res.failures.extend(f)
         nr += n
+    # every string over SET_ALPHABET up to length 5 (quick) / 6 (thorough) in every message-set position
+    allsets = list(set_strings(5 if tier == "quick" else 6))
+    nsets = 0
+    for f, n, k in pmap(work_sets, seeded_order([allsets[i : i + 300] for i in range(0, len(allsets), 300)], seed), jobs):
+        res.failures.extend(f)
+        nsets += n
+        kinds |= {("set",) + x for x in k}
+    ng += nsets
     res.coverage = {
         "evaluations": ng + nm + nr,
         "distinct_nontrivial": ng + nacc + nr,
+        "sequence_set_strings": len(allsets),
+        "sequence_set_well_formed": sum(1 for x in allsets if recognise_set(x) is not None),
         "rule": "grammar: every generated sentence is distinct; mutants are de-duplicated per core sentence; non-trivial = grammar sentences + mutants the parser "
                 "accepts + rejected sentences replayed through the run loop",
         "grammar_sentences": ng,
@@ -519,7 +611,9 @@ def run(tier, seed, jobs) -> Result:
         "samples": [sents[5][0], sents[len(sents) // 2][0], sents[-3][0]],
     }
     res.assumptions = ["the grammar is bounded (see gen_sentences): search nesting depth %d, 13 mailbox names x 4 astring forms, 8 sequence sets, 25 fetch items" % (2 if tier == "quick" else 3),
-                       "differential acceptance against an independent recogniser is limited to: every generated sentence must be accepted with the generated meaning, "
+                       "sequence sets: all %d strings over %r of length <=%d in 9 message-set positions are decided by an independent recogniser of the RFC 3501 "
+                       "grammar (well-formed -> accepted with exactly that meaning; otherwise rejected)" % (len(allsets), SET_ALPHABET, 5 if tier == "quick" else 6),
+                       "elsewhere differential acceptance against an independent recogniser is limited to: every generated sentence must be accepted with the generated meaning, "
                        "nothing may be left unparsed, and a fixed list of ill-formed sentences must be rejected; mutants are checked for totality only",
                        "search keys are compared in a canonical form that identifies FROM x with HEADER FROM x, NEW with (RECENT UNSEEN), UNx with NOT x"]
     return res
@@ -536,6 +630,8 @@ def replay(rec):
                 exp = e
                 break
         return work_grammar([(rp["sentence"], exp)])[0] if exp else []
+    if rp["driver"] == "c08-set":
+        return [f for f in work_sets([rp["set"]])[0] if f.replay["sentence"] == rp["sentence"]]
     if rp["driver"] == "c08-mut":
         st, cmd, err = parse_one(rp["sentence"])
         out = []
